@@ -145,11 +145,15 @@ SumCritProg(kind) ==
                                  \cup {[op |-> "sum", kind |-> "N", regs |-> [i \in 1..Len(l) |-> l[i] + 5]] : l \in lists})]
 \* sign predicates exactly at zero (and at -0.0), bare and inside the container: the container must answer what the
 \* contained type answers
-\* registers: 1 F(0.0)  2 F(-0.0)  3 D1(0.0)  4 D2(0.0)  5 D1(-0.0)  6 F(1.5)   7..12 their wrap-copies
+\* registers: 1 F(0.0)  2 F(-0.0)  3 D1(0.0)  4 D2(0.0)  5 D1(-0.0)  6 F(1.5)
+\*            7 D1 and 8 D2 that are zero in value AND in every derivative while still listing names (what x - x leaves behind)
+\*            9..16 their wrap-copies
 SignZeroProg ==
-  LET leaves == << LeafF(FZ), LeafF(FNeg(FZ)), Leaf("D1", 1, FZ, <<"a">>), Leaf("D2", 2, FZ, <<"a">>), Leaf("D1", 3, FNeg(FZ), <<"a">>), LeafF(FOfRat(3, 2)) >>
-      wraps == [i \in 1..6 |-> [op |-> "wrap", a |-> i]]
-      un == {[op |-> op, a |-> a, fa |-> "r"] : op \in {"is_positive", "is_negative", "signum", "is_zero", "abs", "neg"}, a \in 1..12}
+  LET z2 == <<FZ, FZ>>
+      leaves == << LeafF(FZ), LeafF(FNeg(FZ)), Leaf("D1", 1, FZ, <<"a">>), Leaf("D2", 2, FZ, <<"a">>), Leaf("D1", 3, FNeg(FZ), <<"a">>), LeafF(FOfRat(3, 2)),
+                   [t |-> "D1", re |-> FZ, vars |-> <<"a", "b">>, d |-> z2], [t |-> "D2", re |-> FZ, vars |-> <<"a", "b">>, d |-> z2, d2half |-> <<z2, z2>>] >>
+      wraps == [i \in 1..8 |-> [op |-> "wrap", a |-> i]]
+      un == {[op |-> op, a |-> a, fa |-> "r"] : op \in {"is_positive", "is_negative", "signum", "is_zero", "abs", "neg"}, a \in 1..16}
   IN [key |-> "kinds/signzero", leaves |-> leaves, code |-> wraps \o SetToSeq(un)]
 
 \* equality across kinds where everything of lower order coincides: a second-order number with ZERO gradient and a
